@@ -54,7 +54,7 @@ def gen_cases(sc, tier, rng):
     edges = sum(len(v) for v in g.succ.values())
     if tier == "thorough":
         plist = list(cover)
-        for _ in range(25000):
+        for _ in range(80000):
             plist.append(g.nth_path(rng.randrange(total)))
     else:
         rng.shuffle(cover)
@@ -221,7 +221,7 @@ def run(sc, tier, replay_file):
 
     # ---------------------------------------------------------------- direction B: perturbed stress
     sout = sc.path("stress.ndjson")
-    nstress = 12000 if thorough else 1200
+    nstress = 50000 if thorough else 1200
     r = vlib.run([binary, "stress", "-seed", str(vlib.seed()), "-runs", str(nstress), "-out", sout, "-workers", "16"], timeout=3000)
     if r.timed_out or r.returncode != 0:
         raise vlib.MachineryError("stress driver failed: %s" % r.stderr[-2000:])
